@@ -516,14 +516,36 @@ def inline_new_locals(fnode, ref: dict) -> int:
     by_name = {}
     for nm, st, blk in cands:
         by_name.setdefault(nm, []).append((st, blk))
-    order = sorted([nm for nm, v in by_name.items() if len(v) == 1], key=lambda nm: (_has(by_name[nm][0][0].value, (ast.Call,)), -by_name[nm][0][0].lineno))
-    for nm in order:
+    # a name bound once, or bound once in each of several disjoint blocks with all its readers in the block that binds it
+    # (the branches of an if after `dup_tails`): every binding is then a temporary of its own block
+    def _multi_ok(nm):
+        v = by_name[nm]
+        stores = [n for n in ast.walk(fnode) if isinstance(n, ast.Name) and n.id == nm and isinstance(n.ctx, (ast.Store, ast.Del))]
+        if len(stores) != len(v):
+            return False
+        all_u = [n for n in ast.walk(fnode) if isinstance(n, ast.Name) and n.id == nm and isinstance(n.ctx, ast.Load)]
+        seen = set()
+        for st_, blk_ in v:
+            for s2 in blk_[blk_.index(st_) + 1:]:
+                for n in ast.walk(s2):
+                    if isinstance(n, ast.Name) and n.id == nm and isinstance(n.ctx, ast.Load):
+                        if id(n) in seen:
+                            return False
+                        seen.add(id(n))
+        return len(seen) == len(all_u)
+    work = []
+    for nm, v in by_name.items():
+        if len(v) == 1 or _multi_ok(nm):
+            for st_, blk_ in v:
+                work.append((nm, st_, blk_, len(v)))
+    work.sort(key=lambda w: (_has(w[1].value, (ast.Call,)), -w[1].lineno))
+    for nm, st, blk, nbind in work:
         if surplus <= 0:
             break
-        st, blk = by_name[nm][0]
-        # exactly one binding of the name in the whole function (no loop target, augmented assignment, ...)
+        if st not in blk:
+            continue
         stores = [n for n in ast.walk(fnode) if isinstance(n, ast.Name) and n.id == nm and isinstance(n.ctx, (ast.Store, ast.Del))]
-        if len(stores) != 1:
+        if nbind == 1 and len(stores) != 1:
             continue
         impure = not _pure(st.value)
         free = {n.id for n in ast.walk(st.value) if isinstance(n, ast.Name)}
@@ -552,7 +574,7 @@ def inline_new_locals(fnode, ref: dict) -> int:
                 else:
                     reb = reb or rebinds(s2)
         all_uses = [n for n in ast.walk(fnode) if isinstance(n, ast.Name) and n.id == nm and isinstance(n.ctx, ast.Load)]
-        if reb or not uses or len(uses) != len(all_uses):
+        if reb or not uses or (nbind == 1 and len(uses) != len(all_uses)):
             continue
         # a container that is filled / mutated through the name is not a temporary
         mutated = False
@@ -588,7 +610,8 @@ def inline_new_locals(fnode, ref: dict) -> int:
         if not blk:
             blk.append(ast.copy_location(ast.Pass(), st))
         done += 1
-        surplus -= 1
+        if not any(isinstance(n, ast.Name) and n.id == nm for n in ast.walk(fnode)):
+            surplus -= 1
     if done:
         ast.fix_missing_locations(fnode)
     return done
